@@ -67,10 +67,12 @@ def batch(args):
                 ind.costs_signed = [ctx.real('olds%d_%d' % (i, k)) for k in range(o)] + [True]
             inds.append(ind)
             init.append((st, list(ind.vector), list(ind.costs), list(ind.costs_signed)))
-        alg.evaluate(inds)
+        # the batch may list the same design object more than once (an elite design that is also among the offspring)
+        submitted = inds + ([inds[0]] if args.get('same_object_twice') else [])
+        alg.evaluate(submitted)
         n1 = len(prob.h.calls)
         snap = [(i.state, list(i.costs), list(i.costs_signed)) for i in inds]
-        alg.evaluate(inds)
+        alg.evaluate(submitted)
         n2 = len(prob.h.calls)
         ctx.output('calls', n1)
         empties = [i for i in range(b) if init[i][0] == Individual.State.EMPTY]
@@ -247,6 +249,10 @@ def configs(tier):
                     'args': {'dim': 1, 'criteria': crit, 'ncon': 0, 'b': 2}, 'weight': 16, 'engine': {'validate': 30}})
     out.append({'name': 'batch-b1-dim2-4-objectives-con2', 'task': 'batch',
                 'args': {'dim': 2, 'criteria': many[0], 'ncon': 2, 'b': 1}, 'weight': 16, 'engine': {'validate': 30}})
+    for ci in ((1, 3) if tier == 'quick' else (0, 1, 2, 3)):
+        out.append({'name': 'batch-b2-dim1-crit%d-con0-same-object-listed-twice' % ci, 'task': 'batch',
+                    'args': {'dim': 1, 'criteria': CRITS[ci], 'ncon': 0, 'b': 2, 'same_object_twice': True},
+                    'weight': 16, 'engine': {'validate': 30}})
     nv = 3 if tier == 'quick' else 4
     out.append({'name': 'sweep-%d' % nv, 'task': 'sweep', 'args': {'dim': 2, 'nvec': nv, 'criteria': ('minimize', 'maximize')},
                 'weight': 5})
